@@ -1,7 +1,7 @@
 (* C11 — column and table slices keep their structural invariants.  Statements only; proofs in
    CsFacts.v and SliceFacts.v.  The payload type V of a caller-built slice is the identity of a
    value array (a handle): "the very same array" is equality of payloads. *)
-From Sbdf Require Import Imp ImpCall Gen.Prog ImpBase ImpFactsCap ImpFactsCells ImpFactsGrow ImpFactsSlice ImpFactsCsAdd ImpFactsCsAddFirst ImpFactsRelease.
+From Sbdf Require Import Imp ImpCall Gen.Prog ImpBase ImpFactsCap ImpFactsCells ImpFactsGrow ImpFactsSlice ImpFactsCsAdd ImpFactsCsAddFirst ImpFactsCsAddGrow ImpFactsRelease.
 From Coq Require Import List.
 From Sbdf Require Import Slice CsFacts SliceFacts MdFacts.
 
@@ -234,6 +234,44 @@ Theorem C11_source_cs_add_property_first : forall k sx h cb values names0 props0
       (forall x, x <> cb -> (x < L)%nat -> nth_error hf x = nth_error h x).
 Proof. exact cs_add_first_source. Qed.
 Print Assumptions C11_source_cs_add_property_first.
+
+(* a property added when both arrays are exactly full (1, 2, 4, 7, 11 ... properties): each array is re-grown to the next
+   capacity with its cells kept and the old block released, then name and array go into slot n; the call stops at whichever
+   of the three allocations fails, and what it leaves is a usable slice with the count unchanged *)
+Theorem C11_source_cs_add_property_regrow : forall k sx h cb values names props owned nb ncells pb pcells vb ty1 enc1 v11 o11 o12 ob1 oty1 cnt1 data1 ab ty2 enc2 v21 o21 o22 ob2 oty2 cnt2 data2 pre bytes post pn,
+  let m := pre ++ bytes ++ 0 :: post in
+  let n := zlen pn in
+  cs_block h cb values n names props owned ->
+  as_ptr names = VCell nb 0 -> nth_error h nb = Some (Some ncells) -> names_at m ncells pn -> zlen ncells = n ->
+  as_ptr props = VCell pb 0 -> nth_error h pb = Some (Some pcells) -> zlen pcells = n ->
+  cb <> nb -> cb <> pb -> nb <> pb ->
+  0 < n <= 715827881 -> array_capacity n = n -> array_capacity (n + 1) * 8 <= int_max ->
+  as_ptr values = VCell vb 0 -> va_block h vb ty1 enc1 v11 o11 o12 -> int_min <= enc1 <= int_max ->
+  (enc1 = SBDF_PLAINARRAYENCODINGTYPEID -> as_ptr o11 = VCell ob1 0 /\ obj_block h ob1 oty1 cnt1 data1) ->
+  va_block h ab ty2 enc2 v21 o21 o22 -> int_min <= enc2 <= int_max ->
+  (enc2 = SBDF_PLAINARRAYENCODINGTYPEID -> as_ptr o21 = VCell ob2 0 /\ obj_block h ob2 oty2 cnt2 data2) ->
+  int_min <= row_cnt_of enc1 v11 cnt1 <= int_max -> int_min <= row_cnt_of enc2 v21 cnt2 <= int_max ->
+  row_cnt_of enc1 v11 cnt1 = row_cnt_of enc2 v21 cnt2 ->
+  Forall (fun b => b <> 0) bytes -> zlen bytes + 1 <= int_max -> find_name bytes pn 0 = None ->
+  let L := List.length h in let c := Z.to_nat (array_capacity (n + 1)) in
+  let k1 := next_fail k in let k2 := next_fail k1 in
+  exists f0, forall f, (f0 <= f)%nat -> exists fin,
+    callC prog_env f prog_sbdf_cs_add_property [VCell cb 0; VPtr RIn (zlen pre); VCell ab 0] m k sx h =
+      OReturn (VInt (if (k =? 0) || (k1 =? 0) || (k2 =? 0) then SBDF_ERROR_OUT_OF_MEMORY else SBDF_OK)) fin /\
+    inb fin = (if (k =? 0) || (k1 =? 0) || (k2 =? 0) then m else str_mem m bytes []) /\
+    exists hf, Imp.lookup cells_var (vars fin) = Some (VHeap hf) /\
+      (if k =? 0 then hf = h
+       else if k1 =? 0 then nth_error hf cb = Some (Some [values; VInt n; names; VCell L 0; VInt owned]) /\ nth_error hf pb = Some None /\
+                            nth_error hf L = Some (Some (pcells ++ repeat VUndef (c - List.length pcells))) /\ nth_error hf nb = Some (Some ncells)
+       else if k2 =? 0 then nth_error hf cb = Some (Some [values; VInt n; VCell (S L) 0; VCell L 0; VInt owned]) /\ nth_error hf pb = Some None /\ nth_error hf nb = Some None /\
+                            nth_error hf L = Some (Some (pcells ++ repeat VUndef (c - List.length pcells))) /\
+                            nth_error hf (S L) = Some (Some (ncells ++ repeat VUndef (c - List.length ncells)))
+       else nth_error hf cb = Some (Some [values; VInt (n + 1); VCell (S L) 0; VCell L 0; VInt owned]) /\ nth_error hf pb = Some None /\ nth_error hf nb = Some None /\
+            nth_error hf L = Some (Some (pcells ++ VCell ab 0 :: repeat VUndef (c - S (List.length pcells)))) /\
+            nth_error hf (S L) = Some (Some (ncells ++ VPtr RIn (zlen m + 4) :: repeat VUndef (c - S (List.length ncells))))) /\
+      (forall x, x <> cb -> x <> nb -> x <> pb -> (x < L)%nat -> nth_error hf x = nth_error h x).
+Proof. exact cs_add_regrow_source. Qed.
+Print Assumptions C11_source_cs_add_property_regrow.
 
 (* the capacity rule makes the cases exhaustive and the first numbers concrete *)
 Example C11_capacity_values : map array_capacity [0; 1; 2; 3; 4; 5; 7; 8; 11; 12] = [0; 1; 2; 4; 4; 7; 7; 11; 11; 17].
